@@ -159,7 +159,7 @@ func main() {
 		err := c.Start()
 		if err == nil {
 			// watchdog: a worker that overruns its budget by far is killed (tooling trouble, never a verdict)
-			limit := time.Duration(cfg.MaxSeconds*3+180) * time.Second
+			limit := time.Duration(cfg.MaxSeconds*3+420) * time.Second // above the workers' own per-case limit (fw.caseWallLimit)
 			done := make(chan error, 1)
 			go func() { done <- c.Wait() }()
 			select {
